@@ -648,7 +648,7 @@ def check_history(sess: Session, run, key_prefix, K, bool_inputs=(), outputs=Non
 # ======================================================================================
 
 
-def check_loop(sess: Session, run, key_prefix, cell="m", alias="r0", readers=(), Lmax=None, rounds=3):
+def check_loop(sess: Session, run, key_prefix, cell="m", alias="r0", readers=(), Lmax=None, rounds=3, warmup=0):
     """exists L in 1..Lmax: for all held inputs and all ticks t <= T-L from the all-zero state:
          x(t+L) = f(x(t))        x = the cell's signal at the anchor of `Signal r0 = m.read()`
        and for every depth-1 reader r = g(m.read()):  r(t+1) = g(x(t))."""
@@ -687,9 +687,11 @@ def check_loop(sess: Session, run, key_prefix, cell="m", alias="r0", readers=(),
     cexs = {}
     proved_L = None
     for L in range(1, Lmax + 1):
-        T = rounds * L + 4
+        T = rounds * L + 4 + warmup
         diffs = []
-        for t in range(0, T - L + 1):
+        # warmup > 0: the recurrence is required only once inputs DERIVED by other combinators have reached the
+        # ring (programs whose f uses a computed value); 0 = from the very first tick, as the statement says
+        for t in range(warmup, T - L + 1):
             xt = x_at(zev, t)
             diffs.append(x_at(zev, t + L) != z3.substitute(fterm, (xsym, xt)))
         neq = z3.Or(*diffs)
@@ -697,7 +699,7 @@ def check_loop(sess: Session, run, key_prefix, cell="m", alias="r0", readers=(),
         def replay(model, L=L, T=T):
             idom, iev, iref = sess.int_pair(model)
             bad = {}
-            for t in range(0, T - L + 1):
+            for t in range(warmup, T - L + 1):
                 xt = x_at(iev, t)
                 exp, _r = f_of(xt, idom, iref)
                 got = x_at(iev, t + L)
@@ -1096,6 +1098,8 @@ def check_props(sess: Session, run, key_prefix):
         flat.update(raw.get("control_behavior") or {})
         for k, v in props.items():
             want = v.strip('"') if isinstance(v, str) else v
+            if k not in flat and k == "direction" and str(want) == "0":
+                continue  # the default direction is elided from the blueprint
             if k not in flat:
                 findings.append({"key": f"{key_prefix}:prop:{proto}@{x},{y}:{k}", "what": f"{proto} at ({x},{y}): static property {k}={want!r} is missing from the emitted entity", "kind": "prop-missing", "closed": True})
                 continue
